@@ -41,7 +41,7 @@ RemoveLate(G) ==
   [G EXCEPT !.accept = [s \in States(G) |->
       IF G.accept[s] # 0 /\ \A p \in Preds(G, s) : G.early[p] = G.accept[s] THEN 0 ELSE G.accept[s]]]
 
-(* "Prune dead ends": keep the states that can reach a state with a mark (or are the root) *)
+(* "Prune dead ends": keep the states that can reach a state with a mark, and the root *)
 RECURSIVE BackClosure(_, _)
 BackClosure(G, S) == LET T == S \cup UNION {Preds(G, s) : s \in S} IN IF T = S THEN S ELSE BackClosure(G, T)
 
@@ -62,10 +62,14 @@ Restrict(G, K, f) ==
 
 Id(G) == [s \in States(G) |-> s]
 
+(* The root always stays; when it cannot reach a mark (no pattern can ever match) it is a dead end like the  *)
+(* others and keeps no edges, not even to itself.                                                          *)
 Prune(G) ==
-  LET marked == {s \in States(G) : G.early[s] # 0 \/ G.accept[s] # 0} \cup {G.root}
+  LET marked == {s \in States(G) : G.early[s] # 0 \/ G.accept[s] # 0}
       alive  == BackClosure(G, marked)
-  IN Restrict(G, alive, Id(G))
+      G1     == IF G.root \in alive THEN G
+                ELSE [G EXCEPT !.edge[G.root] = [x \in 1..NB |-> 0], !.eoi[G.root] = 0]
+  IN Restrict(G1, alive \cup {G.root}, Id(G))
 
 (* "Deduplicate states based on their edges", to a fixpoint: a duplicate is rewritten to the first *)
 (* state with the same data                                                                         *)
